@@ -33,11 +33,20 @@ RULE = ("dense / sparse / Kruskal / Tucker / sum holders of small-integer data o
         "ktensor.mask with dense / sparse masks of the same or smaller extents, ttensor.reconstruct with index vectors "
         "(repeats, any order) and mixing matrices on any subset of modes in any order, Tucker tensors with a sparse "
         "core (full, ttv with scalar / dense-core / sparse-core results); "
+        "family dtypes (ALWAYS, every tier): every dense kernel, and the sparse / Tucker ones whose vals / core / "
+        "factors can carry a type, on data stored as int8 / uint8 / int16 / int32 / int64 / float32 / bool (float64 = "
+        "control) with positive magnitudes for which one product of two entries already leaves the type (or its 24-bit "
+        "significand, or {0,1}), multiplicands / second operands / factors stored in the same type and in float64; the "
+        "result is compared with the exact Lean spec value of the stored integers (exactly when it fits 53 bits, to "
+        "1e-12 relative otherwise); combinations in DTYPE_PENDING (reported deviations of the unchanged code, awaiting "
+        "confirmation) are run and tagged pending-deviation but not asserted, every other combination is asserted "
+        "(norm of integer data, collapse, contract, dense scale, everything with float64 multiplicands); "
         "the same array held five ways; plus a malformed stream (wrong sizes, contradictory mode "
         "designations). Each implementation result is compared with the Lean spec value (sum over indices) and with "
         "the Lean model. non-trivial = accepted and operand has a non-zero entry; distinct = distinct case hash")
 ASSUMPTIONS = [
-    "values are small integers, so every float operation of the implementation is exact",
+    "values are small integers, so every float operation of the implementation is exact (dtypes family: the "
+    "exact result fits 53 bits, or the comparison allows 1e-12 relative)",
     "np.transpose / F-order reshape / matmul / dot / fancy gather / numpy_groupies.aggregate have the entry-wise "
     "semantics of the model primitives",
 ]
@@ -79,10 +88,10 @@ def fl(x):
 LAYOUTS = ["C", "F", "strided", "T"]
 
 
-def lay_arr(a, lay, k=0):
+def lay_arr(a, lay, k=0, dtype=float):
     """the same logical array in another memory layout (C / F contiguous, a strided view of a bigger
-    buffer, a transposed view); "mix" picks one per operand index k"""
-    a = np.asarray(a, dtype=float)
+    buffer, a transposed view); "mix" picks one per operand index k; `dtype` = storage type of the array"""
+    a = np.asarray(a).astype(dtype) if dtype is not float else np.asarray(a, dtype=float)
     if lay == "mix":
         lay = LAYOUTS[k % len(LAYOUTS)]
     if lay in (None, "C") or a.ndim == 0:
@@ -92,7 +101,7 @@ def lay_arr(a, lay, k=0):
     if lay == "T":
         return np.ascontiguousarray(a.T).T
     if lay == "strided":
-        big = np.full(tuple(2 * s + 1 for s in a.shape), 77.0)
+        big = np.full(tuple(2 * s + 1 for s in a.shape), 77.0).astype(a.dtype)
         view = big[tuple(slice(1, None, 2) for _ in a.shape)]
         view[...] = a
         return view
@@ -313,11 +322,23 @@ def h_shape(h):
 def build(h, lay=None):
     """pyttb object for a holder; `lay` = memory layout of the arrays handed to the constructors"""
     k = h["kind"]
+    dt = h.get("dtype")   # storage type of the data / vals / core (dtypes family); None = float64
+    if k == "dense" and dt:
+        a = np.array([int(x) for x in h["data"]], dtype=object).astype(dt).reshape(tuple(h["shape"]), order="F")
+        return ttb.tensor(lay_arr(a, lay, 0, np.dtype(dt)), copy=True)
     if k == "dense":
         a = np.array([fl(x) for x in h["data"]], dtype=float).reshape(tuple(h["shape"]), order="F")
         return ttb.tensor(lay_arr(a, lay), copy=True)
+    if k == "sparse" and dt and len(h["subs"]):
+        vals = np.array([int(x) for x in h["vals"]], dtype=object).astype(dt).reshape(-1, 1)
+        return ttb.sptensor(np.array(h["subs"], dtype=int), vals, tuple(h["shape"]))
     if k == "sparse":
         return gen.mk_sptensor(ttb, h["shape"], h["subs"], h["vals"])
+    if k == "tucker" and dt:
+        core = build({"kind": "dense", "dtype": dt, **h["core"]}, lay)
+        fdt = np.dtype(h.get("fdtype") or "float64")
+        return ttb.ttensor(core, [lay_arr(np.array(f, dtype=object).astype(fdt).reshape(len(f), c), lay, j, fdt)
+                                  for j, (f, c) in enumerate(zip(h["factors"], h["core"]["shape"]))])
     if k == "kruskal":
         R = len(h["weights"])
         fs = [lay_arr(np.array(f, dtype=float).reshape(len(f), R), lay, j) for j, f in enumerate(h["factors"])]
@@ -339,7 +360,9 @@ def sort_sparse(j):
 
 def canon(r):
     """canonical JSON of an implementation result"""
-    if isinstance(r, (bool, int, float, np.floating, np.integer)):
+    if isinstance(r, (bool, np.bool_, int, np.integer)):
+        return {"kind": "scalar", "value": int(r)}
+    if isinstance(r, (float, np.floating)):
         return {"kind": "scalar", "value": jval(float(r))}
     if isinstance(r, ttb.tensor):
         return {"kind": "dense", "shape": [int(s) for s in r.shape], "data": jval(np.asarray(r.data).flatten(order="F"))}
@@ -366,7 +389,7 @@ def canon(r):
         return {"kind": "sum", "parts": [canon(p) for p in r.parts]}
     if isinstance(r, np.ndarray):
         if r.ndim == 0:
-            return {"kind": "scalar", "value": jval(float(r))}
+            return {"kind": "scalar", "value": jval(r.item())}
         if r.ndim == 1:
             return {"kind": "vec", "data": jval(r)}
         if r.ndim == 2:
@@ -592,17 +615,23 @@ def run_impl(c):
     op = c["op"]
     lay = c.get("lay")
     X = build(c["X"], lay) if "X" in c else None
+    mdt = np.dtype(c["mdtype"]) if c.get("mdtype") else float   # storage type of vectors / matrices / factors
+
+    def marr(v):
+        return np.array(v, dtype=float) if mdt is float else np.array(v, dtype=object).astype(mdt)
     if op == "ttv":
         vlay = c.get("vlay", lay)
-        vs = [lay_arr(np.array(v, dtype=float), vlay, j) for j, v in enumerate(c["vs"])]
+        vs = [lay_arr(marr(v), vlay, j, mdt) for j, v in enumerate(c["vs"])]
         kw = {}
         if c["dims"] is not None:
             kw["dims"] = arr(c["dims"])
         if c["excl"] is not None:
             kw["exclude_dims"] = arr(c["excl"])
+        if c.get("bare"):   # ONE vector handed over as it is, not inside a list
+            return canon(X.ttv(vs[0], **kw))
         return canon(X.ttv(vs, **kw))
     if op == "ttm":
-        Ms = [lay_arr(np.array(m["rows"], dtype=float).reshape(m["m"], m["n"]), lay, j) for j, m in enumerate(c["Ms"])]
+        Ms = [lay_arr(marr(m["rows"]).reshape(m["m"], m["n"]), lay, j, mdt) for j, m in enumerate(c["Ms"])]
         kw = {"transpose": c["tr"]}
         if c["dims"] is not None:
             kw["dims"] = arr(c["dims"])
@@ -616,7 +645,7 @@ def run_impl(c):
         if "kruskal" in U:
             Uo = build({"kind": "kruskal", **U["kruskal"]}, lay)
         else:
-            Uo = [lay_arr(np.array(f, dtype=float), lay, j) for j, f in enumerate(U["list"])]
+            Uo = [lay_arr(marr(f), lay, j, mdt) for j, f in enumerate(U["list"])]
         if op == "mttkrp":
             return canon(np.asarray(X.mttkrp(Uo, c["n"])))
         return [canon(np.asarray(v)) for v in X.mttkrps(Uo)]
@@ -628,6 +657,8 @@ def run_impl(c):
         return canon(X.contract(c["a"], c["b"]))
     if op == "collapse":
         f = REDUCERS[c["fun"]]
+        if c.get("deffun"):   # the reducer the implementation uses when none is given
+            return canon(X.collapse() if c["dims"] is None else X.collapse(arr(c["dims"])))
         if c["dims"] is None:
             return canon(X.collapse(fun=f) if c["X"]["kind"] == "dense" else X.collapse(function_handle=f))
         return canon(X.collapse(arr(c["dims"]), f))
@@ -635,9 +666,9 @@ def run_impl(c):
         F = c["F"]
         fk = c.get("fk", F["kind"])
         if F["kind"] == "array":
-            Fo = lay_arr(np.array(F["data"], dtype=float), lay)
+            Fo = lay_arr(marr(F["data"]), lay, 0, mdt)
         elif fk == "ndarray":   # a raw N-d numpy array over the scaled modes, in the requested layout
-            Fo = lay_arr(np.array(F["data"], dtype=float).reshape(tuple(F["shape"]), order="F"), lay)
+            Fo = lay_arr(marr(F["data"]).reshape(tuple(F["shape"]), order="F"), lay, 0, mdt)
         else:
             Fo = build(F, lay)
         return canon(X.scale(Fo, arr(c["dims"])))
@@ -658,7 +689,7 @@ def run_impl(c):
             if "idx" in smp:
                 samples.append(np.array(smp["idx"], dtype=int))
             else:
-                samples.append(lay_arr(np.array(smp["rows"], dtype=float).reshape(smp["m"], smp["n"]), lay, j))
+                samples.append(lay_arr(marr(smp["rows"]).reshape(smp["m"], smp["n"]), lay, j, mdt))
         if c["modes"] is None:
             return canon(X.reconstruct(samples))
         return canon(X.reconstruct(samples, list(c["modes"])))
@@ -677,7 +708,7 @@ def run_impl(c):
 
 def request(c):
     op = c["op"]
-    r = {k: v for k, v in c.items() if k not in ("op", "valid", "tag", "single", "outer", "lay", "vlay", "fk")}
+    r = {k: v for k, v in c.items() if k not in ("op", "valid", "tag", "single", "outer", "lay", "vlay", "fk", "mdtype", "dt", "deffun", "bare")}
     r["op"] = "c02_" + op
     if op == "ttm":
         pass
@@ -1371,6 +1402,226 @@ class ExtrasFam(C02Family):
         return with_layouts(rng, out)
 
 
+# ----------------------------------------------------------------------------
+# storage dtypes: the array an operand denotes is an array of REAL numbers, whatever numpy type stores it
+# ----------------------------------------------------------------------------
+#: storage types of the data / vals / core (float64 is the control)
+DTYPES = ["float64", "int8", "uint8", "int16", "int32", "int64", "float32", "bool"]
+#: entry magnitudes per storage type, chosen so that one product of two entries (hence every sum of squares /
+#: sum of products) leaves the type's range (ints), its 24-bit significand (float32: odd values > 2**12) or
+#: {0, 1} (bool: a count above one), while the exact result still fits a double (except int64: compared to 1e-12)
+DT_RANGE = {"float64": (2, 40), "int8": (60, 120), "uint8": (100, 250), "int16": (10000, 30000),
+            "int32": (47000, 60000), "int64": (3 * 10 ** 9, 10 ** 11), "float32": (4097, 8191), "bool": (1, 1)}
+#: operation key -> storage types whose deviation is tagged but not asserted (decision of the coordinator).
+#: A deviation in a combination that is not listed here is a violation.
+DTYPE_PENDING = {
+    # single precision: the norm is computed in single precision (rounding, not treated as a defect)
+    "norm:dense": {"float32"}, "norm:sparse": {"float32"},
+}
+#: operation keys of the two KNOWN findings (known/C02.json K02-ttt-storage-dtype, K02-sp-scale-storage-dtype): the
+#: result is computed in the storage type of the operands (a doctest of each pins an integer-typed result for
+#: integer input). Their deviations are reported as violations and accepted by a matcher only when the result is
+#: exactly what arithmetic in the storage type gives.
+DTYPE_KNOWN_KEYS = ("ttt:full", "ttt:partial", "ttt:outer", "scale:sparse:array", "scale:sparse:tensor")
+
+
+def dt_pending(key, dt, md):
+    """is this combination on the list of reported, not yet confirmed deviations of the unchanged code?"""
+    return dt != "float64" and md != "float64" and dt in DTYPE_PENDING.get(key, ())
+
+
+def dt_val(rng, dt):
+    lo, hi = DT_RANGE[dt]
+    v = rng.randint(lo, hi)
+    if dt == "float32":
+        v |= 1
+    if dt == "float64" and rng.random() < 0.3:   # the narrow types stay positive: a sum that cancels back into range
+        v = -v                                    # is computed correctly by modular arithmetic
+    if dt == "bool" and rng.random() < 0.15:
+        v = 0
+    return v
+
+
+def dt_array(rng, dt, shape, zero_share=0.0):
+    A = np.empty(tuple(shape), dtype=object)
+    for idx in gen.all_subs(list(shape)):
+        A[tuple(idx)] = 0 if rng.random() < zero_share else dt_val(rng, dt)
+    return A
+
+
+def dt_rows(rng, dt, r, c):
+    return [[dt_val(rng, dt) for _ in range(c)] for _ in range(r)]
+
+
+def dt_close(got, ref):
+    """value equality of two canonical results: exact (correctly rounded double), except that a value that does
+    not fit the 53-bit significand may be off by 1e-12 relative"""
+    from harness.lib import jnum, num_eq
+    sa, va = value_of(got)
+    sb, vb = value_of(ref)
+    if sa != sb or len(va) != len(vb):
+        return False
+    for x, y in zip(va, vb):
+        if num_eq(jnum(x), jnum(y)):
+            continue
+        if isinstance(x, str) or isinstance(y, str):
+            return False
+        if abs(y) >= 2 ** 53 and abs(x - y) <= abs(y) / 10 ** 12:
+            continue
+        return False
+    return True
+
+
+class DtypesFam(C02Family):
+    """every kernel on operands whose data / vals / core (and multiplicands) are stored in a narrow, integer or
+    single-precision numpy type, with magnitudes for which the exact result leaves that type"""
+    name = "dtypes"
+    theorems = ("C02_norm_dense", "C02_innerprod_dense", "C02_ttv_dense", "C02_ttm_dense", "C02_mttkrp_dense",
+                "C02_mttkrps_dense", "C02_collapse_dense", "C02_contract_dense", "C02_scale_dense", "C02_ttt_dense",
+                "C02_norm_sparse", "C02_innerprod_sparse_sparse", "C02_innerprod_sparse_dense", "C02_ttv_sparse",
+                "C02_ttm_sparse", "C02_mttkrp_sparse", "C02_collapse_sparse", "C02_contract_sparse", "C02_scale_sparse",
+                "C02_tucker_full")
+
+    def gen(self, rng, tier):
+        out = []
+
+        def holder(kind, dt, shape, cs=None):
+            if kind == "dense":
+                h = h_dense(dt_array(rng, dt, shape))
+            elif kind == "sparse":
+                A = dt_array(rng, dt, shape, 0.3)
+                if not np.any(A != 0):
+                    A[(0,) * len(shape)] = dt_val(rng, dt) or 1
+                h = h_sparse(A, rng)
+            else:
+                cs = cs or [2] * len(shape)
+                h = {"kind": "tucker", "core": {"shape": cs, "data": [int(x) for x in dt_array(rng, dt, cs).flatten(order="F")]},
+                     "factors": [dt_rows(rng, dt, s_, c_) for s_, c_ in zip(shape, cs)]}
+            if dt != "float64":
+                h["dtype"] = dt
+            return h
+
+        def add(key, dt, mdt, c):
+            c["dt"] = [key, dt, mdt or "-"]
+            c["tag"] = [f"dtype:{dt}", f"mult:{mdt or '-'}", f"dt:{key}"] + list(c.get("tag", []))
+            if mdt and mdt != "float64":
+                c["mdtype"] = mdt
+            if c["X"]["kind"] == "tucker" and mdt and mdt != "float64":
+                c["X"]["fdtype"] = mdt
+            c["lay"] = "C"
+            out.append(c)
+
+        reps = 1 if tier == "quick" else 4
+        for _ in range(reps):
+            for dt in DTYPES:
+                mds = ["float64"] if dt == "float64" else [dt, "float64"]
+                # Kruskal tensors only store float64; the bare vector carries the type
+                for shape in ([2, 3], [3, 2, 2]):
+                    n = rng.randrange(len(shape))
+                    w = [dt_val(rng, dt) for _ in range(shape[n])]
+                    add("ttv:kruskal:bare", "float64", dt, {"op": "ttv", "X": h_kruskal(rng, shape), "vs": [w], "dims": [n],
+                                                            "excl": None, "sel": [n], "ws": [w], "bare": True})
+                for shape in ([2, 3], [3, 2, 2]):
+                    N = len(shape)
+                    for kind in ("dense", "sparse", "tucker"):
+                        def X():
+                            return holder(kind, dt, shape)
+                        for md in (mds if kind == "tucker" else [None]):   # Tucker: md = storage type of the factors
+                            add(f"norm:{kind}", dt, md, {"op": "norm", "X": X()})
+                            for yk in ("dense", "sparse"):
+                                add(f"innerprod:{kind}x{yk}", dt, md, {"op": "innerprod", "X": X(), "Y": holder(yk, dt, shape)})
+                        if kind == "tucker":
+                            for md in mds:
+                                add("full:tucker", dt, md, {"op": "full", "X": X()})
+                        for md in mds:
+                            for sel in ([N - 1], list(range(N))):
+                                ws = [[dt_val(rng, dt) for _ in range(shape[d])] for d in sel]
+                                add(f"ttv:{kind}:{'all' if len(sel) == N else 'one'}", dt, md,
+                                    {"op": "ttv", "X": X(), "vs": ws, "dims": sel, "excl": None, "sel": sel, "ws": ws})
+                            n = rng.randrange(N)
+                            M = mat_arg(dt_rows(rng, dt, 2, shape[n]))
+                            add(f"ttm:{kind}", dt, md, {"op": "ttm", "X": X(), "Ms": [M], "dims": [n], "excl": None,
+                                                        "tr": False, "sel": [n], "msel": [M]})
+                            # ONE vector of this type handed over bare (not inside a list)
+                            n = rng.randrange(N)
+                            w = [dt_val(rng, dt) for _ in range(shape[n])]
+                            add(f"ttv:{kind}:bare", dt, md, {"op": "ttv", "X": X(), "vs": [w], "dims": [n], "excl": None,
+                                                             "sel": [n], "ws": [w], "bare": True})
+                            if kind == "tucker":
+                                # reconstruct: an index vector on one mode, a mixing matrix of this type on another
+                                modes = rng.sample(range(N), 2)
+                                samples = [{"idx": [rng.randrange(shape[modes[0]]) for _ in range(2)]},
+                                           mat_arg(dt_rows(rng, dt, 2, shape[modes[1]]))]
+                                add("reconstruct:tucker", dt, md, {"op": "reconstruct", "X": X(), "samples": samples,
+                                                                   "modes": modes, "sel": modes, "ssel": samples})
+                            for n in (0, N - 1):
+                                fs = [dt_rows(rng, dt, s_, 2) for s_ in shape]
+                                add(f"mttkrp:{kind}", dt, md, {"op": "mttkrp", "X": X(), "U": {"list": fs}, "n": n, "fs": fs,
+                                                               "lam": [1, 1]})
+                            if kind == "dense":
+                                fs = [dt_rows(rng, dt, s_, 2) for s_ in shape]
+                                add("mttkrps:dense", dt, md, {"op": "mttkrps", "X": X(), "U": {"list": fs}, "fs": fs, "lam": [1, 1]})
+                        if kind == "tucker":
+                            continue
+                        for sel in ([0], list(range(N))):
+                            add(f"collapse:{kind}:{'all' if len(sel) == N else 'one'}", dt, None,
+                                {"op": "collapse", "X": X(), "dims": None if len(sel) == N else sel, "fun": "sum", "sel": sel})
+                            add(f"collapse:{kind}:{'all' if len(sel) == N else 'one'}:default-reducer", dt, None,
+                                {"op": "collapse", "X": X(), "dims": None if len(sel) == N else sel, "fun": "sum", "sel": sel,
+                                 "deffun": True})
+                        sq = [2, 2] if N == 2 else [2, 3, 2]
+                        add(f"contract:{kind}", dt, None, {"op": "contract", "X": holder(kind, dt, sq), "a": 0, "b": N - 1})
+                        for md in mds:
+                            F = {"kind": "array", "data": [dt_val(rng, dt) for _ in range(shape[1])]}
+                            add(f"scale:{kind}:array", dt, md, {"op": "scale", "X": X(), "F": F, "dims": [1], "fk": "array", "sel": [1]})
+                        Fh = holder("dense", dt, [shape[0]])
+                        add(f"scale:{kind}:tensor", dt, None, {"op": "scale", "X": X(), "F": Fh, "dims": [0], "fk": "tensor", "sel": [0]})
+                        if kind == "dense":
+                            add("ttt:full", dt, None, {"op": "ttt", "X": X(), "Y": holder("dense", dt, shape),
+                                                       "xd": list(range(N)), "yd": list(range(N))})
+                            add("ttt:partial", dt, None, {"op": "ttt", "X": X(), "Y": holder("dense", dt, [shape[0], 2]),
+                                                          "xd": [0], "yd": [0]})
+                            add("ttt:outer", dt, None, {"op": "ttt", "X": X(), "Y": holder("dense", dt, [2]),
+                                                        "xd": [], "yd": [], "outer": True})
+        return out
+
+    def judge(self, c, impl, rep):
+        op = c["op"]
+        key, dt, md = c["dt"]
+        tags = [op, f"{op}:{c['X']['kind']}"] + list(c.get("tag", []))
+        model, spec = rep["model"], rep["spec"]
+        pending = dt_pending(key, dt, md)
+        why = None
+        if "ok" not in impl:
+            why = f"raised {impl.get('exc')}: {impl.get('msg')}"
+        else:
+            got = impl["ok"]
+            bad = strip_reads(got)
+            sval = canon_model(spec)
+            if bad:
+                why = bad[0]
+            elif op == "norm":
+                from harness.lib import frac
+                sq = frac(sval) if not isinstance(sval, dict) else frac(sval["value"])
+                want = math.sqrt(sq) if sq < 2 ** 1000 else float("inf")
+                gv = frac(got["value"])
+                if isinstance(gv, str) or not (float(gv) == want or abs(float(gv) - want) <= 1e-12 * max(1.0, want)):
+                    why = f"norm {got['value']} instead of sqrt({sq})"
+            elif op == "mttkrps":
+                if not (len(got) == len(sval) and all(dt_close(g, s_) for g, s_ in zip(got, sval))):
+                    why = "a matrix of mttkrps differs from the sum over indices"
+            else:
+                if op == "innerprod":
+                    sval = {"kind": "scalar", "value": sval}
+                if not dt_close(got, sval):
+                    why = "the result differs from the sum over indices of the stored real values"
+        if why is None:
+            return Verdict("ok", "", impl, model, spec, tags + (["pending-but-correct"] if pending else []), True)
+        if pending:
+            return Verdict("ok", "", impl, model, spec, tags + ["pending-deviation", f"pending-deviation:{key}:{dt}"], True)
+        return Verdict("violation", f"{key} on data stored as {dt} (multiplicands {md}): {why}", impl, model, spec, tags, True)
+
+
 def families():
     return [TtvFam(), TtmFam(), MttkrpFam(), MttkrpsFam(), InnerFam(), ContractCollapseScaleFam(), TttFam(), FullFam(),
-            ExtrasFam(), CrossFam()]
+            ExtrasFam(), CrossFam(), DtypesFam()]
